@@ -298,9 +298,16 @@ def r9_host_field_name_any_case(ctx):
     b = ctx.body("R17.9", HP + "build_forward_request")
     if d is None or b is None:
         return
-    def recognisers(body):
-        o = ctx.origins(body)
+    def recognisers(body0):
         sens, insens = [], []
+        for key_, body in ctx.P.bodies.items():
+            if key_ in ctx.P.inlined_away or not (key_ == body0.name or key_.startswith(body0.name + "::")):
+                continue
+            _scan(body, sens, insens)
+        return sens, insens
+
+    def _scan(body, sens, insens):
+        o = ctx.origins(body)
         for c in body.calls():
             last = (c.norm or "").split("::")[-1]
             if last in ("strip_prefix", "starts_with") and len(c.args) > 1:
@@ -315,7 +322,6 @@ def r9_host_field_name_any_case(ctx):
                     (insens if folded else sens).append(c)
             if last == "eq_ignore_ascii_case" and any("host" in fmt(o.of_operand(a)).lower() for a in c.args):
                 insens.append(c)
-        return sens, insens
     ds, di = recognisers(d)
     bs, bi_ = recognisers(b)
     if not (ds or di) or not (bs or bi_):
